@@ -251,3 +251,17 @@ func (r *Refuser) ReadValue(distsys.ArchetypeInterface) (tla.Value, error) {
 }
 func (r *Refuser) WriteValue(distsys.ArchetypeInterface, tla.Value) error { return nil }
 func (r *Refuser) Close() error                                           { return nil }
+
+// AsyncClose forwards everything but runs Close of the wrapped resource in a background goroutine, so that Run's
+// clean-up does not wait for slow shutdown paths (tcpMailboxesLocal.Close sleeps 500 ms).  Not part of any oracle.
+type AsyncClose struct {
+	distsys.ArchetypeResource
+}
+
+func (w AsyncClose) Close() error {
+	go func() {
+		defer func() { recover() }()
+		w.ArchetypeResource.Close()
+	}()
+	return nil
+}
